@@ -67,6 +67,8 @@ mod error;
 mod regret;
 mod solve;
 mod split;
+#[cfg(cfr_verif)]
+pub mod verif;
 
 use compact::{Builder, OptBuilder};
 pub use error::{GameError, SolveError, StratError};
@@ -676,6 +678,13 @@ impl<I, A> Game<I, A> {
             .or_else(|| thread::available_parallelism().ok())
             .unwrap_or(NonZeroUsize::new(1).unwrap());
         let params = params.unwrap_or_default();
+        #[cfg(cfr_verif)]
+        verif::begin_solve(
+            &self.root,
+            first_player.len(),
+            method as usize,
+            threads.get(),
+        );
         let (regrets, probs) = if threads == NonZeroUsize::new(1).unwrap() {
             match method {
                 SolveMethod::Full => vanilla::solve_full_single(
